@@ -382,7 +382,17 @@ func (s *Server) keepaliveHandler(ctx context.Context) {
 }
 
 func (s *Server) NewClientConn(conn io.ReadWriteCloser, remoteAddr string) *ClientConn {
-	clientConn := &ClientConn{
+	clientConn := s.newUnregisteredClientConn(conn, remoteAddr)
+
+	s.ClientMgr.Add(clientConn)
+
+	return clientConn
+}
+
+// newUnregisteredClientConn returns a ClientConn that is not (yet) known to the client manager: it has no ID, is not
+// listed and receives nothing addressed to "all users".
+func (s *Server) newUnregisteredClientConn(conn io.ReadWriteCloser, remoteAddr string) *ClientConn {
+	return &ClientConn{
 		Icon:       []byte{0, 0}, // TODO: make array type
 		Connection: conn,
 		Server:     s,
@@ -390,10 +400,6 @@ func (s *Server) NewClientConn(conn io.ReadWriteCloser, remoteAddr string) *Clie
 
 		ClientFileTransferMgr: NewClientFileTransferMgr(),
 	}
-
-	s.ClientMgr.Add(clientConn)
-
-	return clientConn
 }
 
 func sendBanMessage(rwc io.Writer, message string) {
@@ -449,7 +455,8 @@ func (s *Server) handleNewConnection(ctx context.Context, rwc io.ReadWriteCloser
 		return fmt.Errorf("error writing login transaction: %w", err)
 	}
 
-	c := s.NewClientConn(rwc, remoteAddr)
+	// The connection becomes a user - gets an ID, is listed and broadcast to - only once it has authenticated.
+	c := s.newUnregisteredClientConn(rwc, remoteAddr)
 	defer c.Disconnect()
 
 	encodedPassword := clientLogin.GetField(FieldUserPassword).Data
@@ -496,6 +503,8 @@ func (s *Server) handleNewConnection(ctx context.Context, rwc io.ReadWriteCloser
 	if c.Authorize(AccessDisconUser) {
 		c.Flags.Set(UserFlagAdmin, 1)
 	}
+
+	s.ClientMgr.Add(c)
 
 	s.outbox <- c.NewReply(&clientLogin,
 		NewField(FieldVersion, []byte{0x00, 0xbe}),
